@@ -388,6 +388,12 @@ func (f *Frame) enterLoop(li *loopInfo) *BState {
 			heap[k] = a
 			continue
 		}
+		if k == "$bytes" {
+			a := s.freshConst("bytes", "Int")
+			s.fact(app(">=", a, s.hget(st0.heap, "$bytes", "Int")))
+			heap[k] = a
+			continue
+		}
 		n := s.freshConst(qsymBase("L:"+k), srt)
 		heap[k] = n
 		if strings.HasPrefix(k, "it") {
